@@ -195,6 +195,21 @@ def aligned_call(al, act, args):
     raise ValueError(act)
 
 
+def round_trip_unknown(m):
+    """to_json -> deserialise -> entry per column (-1 lost span, -2 terminal padding)."""
+    from cogent3.util.deserialise import deserialise_object
+
+    back = deserialise_object(m.to_json())
+    ents = []
+    for sp in back.spans:
+        n = M.check_len(sp.length, "span length")
+        if sp.lost:
+            ents.extend([-2 if getattr(sp, "terminal", False) else -1] * n)
+        else:
+            ents.extend(int(i) for i in sp)
+    return ents
+
+
 def do_aligned(rec, out):
     act, args, g, ret = rec["act"], rec["args"], tuple(rec["from"]), rec["ret"]
     if not g:
@@ -220,6 +235,9 @@ def do_aligned(rec, out):
                     "gap_vector": [int(bool(x)) for x in al.gap_vector()],
                     "with_termini_unknown": text_of(al.with_termini_unknown()),
                     "map_len": len(al.map),
+                    # serialisation round trips keep lost / unknown-terminus spans
+                    "indelmap_json_unknown": round_trip_unknown(al.map.with_termini_unknown()),
+                    "featuremap_json_unknown": round_trip_unknown(al.map.with_termini_unknown().to_feature_map()),
                 }
                 exp = {
                     "str": render(ret["ents"]),
@@ -229,6 +247,8 @@ def do_aligned(rec, out):
                     "gap_vector": ret["gapvec"],
                     "with_termini_unknown": render(ret["unknown"]),
                     "map_len": ret["len"],
+                    "indelmap_json_unknown": ret["unknown"],
+                    "featuremap_json_unknown": ret["unknown"],
                 }
                 for k in exp:
                     if obs[k] != exp[k]:
